@@ -492,3 +492,4 @@ not_reproduced()
 # level text addendum (cases added after the seeded-change rounds)
 LEVEL_TEXT = LEVEL_TEXT + ' Also: a second split over its own output, and reconstruction from shank files holding arbitrary 16-bit words decided bit-exactly (cvc5, bit-vectors + IEEE + integers).'
 LEVEL_TEXT = LEVEL_TEXT + ' Round 6: shank maps that do not use shank 0 in the reconstruction cases of the quick tier.'
+LEVEL_TEXT = LEVEL_TEXT + " Round 7: a shank whose sites all carry the 'unused' flag in the shank map still gets its shard."
